@@ -1,5 +1,5 @@
 (* Extraction of the bloom / log-filter model for ocaml/bloom/driver.ml.  ExtrOcamlBasic only. *)
-From AQ Require Import Lib.Bytes Lib.ExtractBase Lib.Keccak Bloom.BloomModel Bloom.FilterModel Bloom.ByteModel Bloom.IndexerModel.
+From AQ Require Import Lib.Bytes Lib.ExtractBase Lib.Keccak Bloom.BloomModel Bloom.FilterModel Bloom.ByteModel Bloom.IndexerModel Bloom.BitutilModel.
 Require Extraction.
 Require Import ExtrOcamlBasic.
 Extraction "../ocaml/bloom/model.ml" base_anchor keccak256
@@ -8,4 +8,5 @@ Extraction "../ocaml/bloom/model.ml" base_anchor keccak256
   pack new_generator add_bloom bitset gen_row row_bits process_section
   known_sections stored_sections index_of_chain matcher_run index_b_of_chain matcher_run_b
   ix_init apply_op shead get_row canon_hash process_section_rows index_of_world
+  compress decompress
   filter_query brute_force.
